@@ -136,7 +136,48 @@ func sEq(a, b string) string {
 	if isNumLit(a) && isNumLit(b) {
 		return "false"
 	}
+	// an object allocated by this activation (ref!N > alloc0 > 0) is none of the objects the entry state knows, nor nil
+	if isFreshSym(a) && (entryTerm(b) || b == "0") || isFreshSym(b) && (entryTerm(a) || a == "0") {
+		return "false"
+	}
 	return "(= " + a + " " + b + ")"
+}
+
+func isFreshSym(t string) bool {
+	if !strings.HasPrefix(t, "ref!") {
+		return false
+	}
+	for _, ch := range t[4:] {
+		if ch < '0' || ch > '9' {
+			return false
+		}
+	}
+	return len(t) > 4
+}
+
+// entryTerm: a reference-valued term built only from parameters and reads of the entry heap (base arrays of epoch 0, no fresh
+// symbol): it denotes an object that existed at function entry (<= alloc0), as the well-typedness facts state anyway
+func entryTerm(t string) bool {
+	if t == "" || strings.ContainsAny(t, "!?") {
+		return false
+	}
+	if !strings.HasPrefix(t, "p.") && !strings.HasPrefix(t, "(select ") {
+		return false
+	}
+	for i := 0; i < len(t); i++ {
+		if t[i] == '@' {
+			if i+1 >= len(t) || t[i+1] != '0' || (i+2 < len(t) && t[i+2] >= '0' && t[i+2] <= '9') {
+				return false
+			}
+		}
+	}
+	// only selects over base arrays and parameters: no arithmetic, no ite
+	for _, w := range []string{"(ite ", "(+ ", "(- ", "(* ", "(store "} {
+		if strings.Contains(t, w) {
+			return false
+		}
+	}
+	return true
 }
 
 func isNumLit(s string) bool {
